@@ -2881,7 +2881,22 @@ class Interp:
         raise Unsupported('global statement')
 
     def ex_Delete(self, s, fr):
-        raise Unsupported('del statement')
+        from .builtins import call_builtin_method
+        for t in s.targets:
+            if isinstance(t, ast.Name):
+                if t.id not in fr.locals:
+                    raise PyRaise(UnboundLocalError, (), t.id)
+                del fr.locals[t.id]
+            elif isinstance(t, ast.Subscript) and not isinstance(t.slice, ast.Slice):
+                obj = self.ev(t.value, fr)
+                idx = self.ev(t.slice, fr)
+                if obj.k == 'pylist' or (obj.k == 'ref' and obj.cls == 'list'):
+                    # del xs[i] is xs.pop(i) with the element dropped
+                    call_builtin_method(self, obj, 'pop', [idx], {})
+                else:
+                    raise Unsupported('del of a non-list element')
+            else:
+                raise Unsupported('del statement form')
 
     # ================================================================ symbolic iteration
     def seg_length(self, seg):
